@@ -56,6 +56,7 @@ fn foreign_init() -> Layout {
         zero_counters: 0,
         overlap_prefixes: false,
         inline: 0,
+        to_end: false,
     }
 }
 
